@@ -55,6 +55,10 @@ type formatFMP4Track struct {
 	startInitialized bool
 	startDTS         time.Duration
 	startNTP         time.Time
+
+	// a video sample has been discarded: the samples that follow it
+	// cannot be decoded until the next random access sample
+	discardUntilSync bool
 }
 
 func (t *formatFMP4Track) initialize() {
@@ -108,7 +112,16 @@ func (t *formatFMP4Track) write(sample *formatFMP4Sample) error {
 		t.f.nextSegmentNumber++
 	} else if (dts - t.f.currentSegment.startDTS) < 0 { // BaseTime is negative, this is not supported by fMP4
 		t.f.ri.Log(logger.Warn, "sample of track %d received too late, discarding", t.initTrack.ID)
+		t.discardUntilSync = t.initTrack.Codec.IsVideo()
 		return nil
+	}
+
+	if t.discardUntilSync {
+		if sample.IsNonSyncSample {
+			t.f.ri.Log(logger.Warn, "sample of track %d follows a discarded sample, discarding", t.initTrack.ID)
+			return nil
+		}
+		t.discardUntilSync = false
 	}
 
 	err := t.f.currentSegment.write(t, sample, dts)
